@@ -468,3 +468,47 @@ func (c *Ctx) maySucceed(in ssa.Instruction) bool {
 	}
 	return !c.definitelyNonNilErr(retVal(r, ei), in.Block(), nil)
 }
+
+// orWrapper closes a barrier predicate under "a helper of this package that always does it": the returned predicate
+// holds for an instruction that satisfies pred, and for a plain call (not go / defer) of a package function every
+// path through which, from entry to return, passes an instruction satisfying the returned predicate again (three
+// levels). Universal rules use it so that extracting the guarded action into a helper keeps the obligation
+// discharged, while a helper that can skip the action does not count. id keys the memo (one per predicate).
+func (c *Ctx) orWrapper(id string, pred func(ssa.Instruction) bool) func(ssa.Instruction) bool {
+	if c.wrapMemo == nil {
+		c.wrapMemo = map[string]map[*ssa.Function]int{}
+	}
+	memo := c.wrapMemo[id]
+	if memo == nil {
+		memo = map[*ssa.Function]int{}
+		c.wrapMemo[id] = memo
+	}
+	var wrapped func(in ssa.Instruction, depth int) bool
+	must := func(g *ssa.Function, depth int) bool {
+		if v, ok := memo[g]; ok {
+			return v == 1
+		}
+		memo[g] = 0
+		// exits that report a failure need not have done it: the caller's own error discipline takes over there
+		hit, _ := reachFrom(g.Blocks[0], 0, c.maySucceed, func(x ssa.Instruction) bool { return wrapped(x, depth+1) })
+		if hit == nil {
+			memo[g] = 1
+		}
+		return hit == nil
+	}
+	wrapped = func(in ssa.Instruction, depth int) bool {
+		if pred(in) {
+			return true
+		}
+		call, ok := in.(*ssa.Call)
+		if !ok || depth > 3 {
+			return false
+		}
+		g := call.Call.StaticCallee()
+		if g == nil || !c.inPkg(g) || len(g.Blocks) == 0 {
+			return false
+		}
+		return must(g, depth)
+	}
+	return func(in ssa.Instruction) bool { return wrapped(in, 0) }
+}
